@@ -189,6 +189,17 @@ def lexer_part(run, info):
                 fails.append({"kind": "input", "stream": "plugin-vs-spec", "text": txt, "flags": flags, "mybatis": True,
                               "request": lexh.lex_request(s, True, flags), "observed": b, "expected": sp, "region": cl,
                               "oracle_verdict": "plug-in lexer differs from the MyBatis specification lexer"})
+        # the same short texts, base lexer first and plug-in lexer directly afterwards in ONE process: the answers must not depend on the history
+        idx = [i for i, ph in enumerate(m_ph) if ph != "0" and len(ins[i]) <= 64][:180]
+        pair_reqs = []
+        for i in idx:
+            pair_reqs += [lreq_b[i], lreq_mb[i]]
+        pim = core.run_impl(pair_reqs, flags=flags) if pair_reqs else []
+        for k, i in enumerate(idx):
+            if pim[2 * k + 1] != i_mb[i] or pim[2 * k] != i_b[i]:
+                fails.append({"kind": "input", "stream": "base-then-plugin in one process", "text": lexh.show(ins[i]), "flags": flags, "mybatis": True,
+                              "request": lreq_mb[i], "observed": pim[2 * k + 1], "expected": i_mb[i],
+                              "oracle_verdict": "lexing the text with the base lexer first changes what the plug-in lexer (or the base lexer) answers in the same process"})
         run.add_stream("LEX plug-in flags=%d" % flags, n, nontriv,
                        [{"input": lexh.show(ins[i]), "plugin": i_mb[i][:120], "base": i_b[i][:120]} for i in (n - 1, n - 7, n // 2)],
                        extra=counts)
